@@ -599,6 +599,80 @@ func genJumps(r *rand.Rand) cpuCase {
 	return cpuCase{family: "jumps", text: g.text(), regs: initRegs(r, g), memSize: ms, mem: make([]int8, ms)}
 }
 
+// G-calls: a small function called from two or three sites with `jal ra, f` and returning with
+// `jalr zero, ra, 0` (the same jalr sees different targets), optionally inside a counted loop.
+func genCalls(r *rand.Rand) cpuCase {
+	ms := 256
+	g := newGen(r, 3+r.Intn(4), ms)
+	f := g.label()
+	done := g.label()
+	sites := 2 + r.Intn(2)
+	loop := r.Intn(2) == 0
+	var top string
+	if loop {
+		g.emit("li s10, %d", 2+r.Intn(2))
+		top = g.label()
+		g.place(top)
+	}
+	for i := 0; i < sites; i++ {
+		g.body(r.Intn(3), false)
+		g.emit("jal ra, %s", f)
+		g.body(1+r.Intn(2), false)
+	}
+	if loop {
+		g.emit("addi s10, s10, -1")
+		g.emit("bnez s10, %s", top)
+	}
+	g.emit("j %s", done)
+	g.place(f)
+	g.body(1+r.Intn(4), false)
+	if r.Intn(2) == 0 {
+		g.emit("mv %s, ra", g.reg())
+	}
+	g.emit("jalr zero, ra, 0")
+	g.place(done)
+	g.body(r.Intn(3), false)
+	if r.Intn(2) == 0 {
+		g.emit("ret")
+	}
+	return cpuCase{family: "calls", text: g.text(), regs: initRegs(r, g), memSize: ms, mem: make([]int8, ms)}
+}
+
+// G-loops: a counted loop whose body is a short dependent chain over 2-3 registers (every R-type and
+// I-type operation, `sub` and `mv` included), so that one instruction is executed several times, some
+// times with and some times without a forwarded operand.
+func genLoops(r *rand.Rand) cpuCase {
+	ms := 256
+	g := newGen(r, 2+r.Intn(2), ms)
+	g.body(r.Intn(3), false)
+	g.emit("li s10, %d", 2+r.Intn(5))
+	top := g.label()
+	g.place(top)
+	n := 2 + r.Intn(5)
+	for i := 0; i < n; i++ {
+		switch r.Intn(4) {
+		case 0:
+			g.emit("sub %s, %s, %s", g.reg(), g.reg(), g.reg())
+		case 1:
+			g.emit("%s %s, %s, %s", aluR[r.Intn(len(aluR))], g.reg(), g.reg(), g.reg())
+		case 2:
+			g.emit("%s %s, %s, %d", aluI[r.Intn(len(aluI))], g.reg(), g.reg(), g.smallImm())
+		default:
+			g.emit("mv %s, %s", g.reg(), g.reg())
+		}
+	}
+	if r.Intn(3) == 0 {
+		g.emit("nop")
+	}
+	g.emit("addi s10, s10, -1")
+	g.emit("bnez s10, %s", top)
+	g.body(r.Intn(3), false)
+	if r.Intn(2) == 0 {
+		g.emit("ret")
+	}
+	return cpuCase{family: "loops", text: g.text(), regs: initRegs(r, g), memSize: ms, mem: make([]int8, ms)}
+}
+
 func genCase(r *rand.Rand, family string) cpuCase {
 	switch family {
 	case "alu":
@@ -627,6 +701,10 @@ func genCase(r *rand.Rand, family string) cpuCase {
 		return genEvict(r)
 	case "jumps":
 		return genJumps(r)
+	case "calls":
+		return genCalls(r)
+	case "loops":
+		return genLoops(r)
 	}
 	panic("unknown family " + family)
 }
